@@ -225,6 +225,11 @@ func ReadFromSSAWithOptions(i io.Reader, opts SSAOptions) (o *Subtitles, err err
 				// Switch on section name
 				switch sectionName {
 				case ssaSectionNameEvents:
+					// Only dialogues are processed, other events (comments, pictures, sounds, ...) don't
+					// need to be understood
+					if header != ssaEventCategoryDialogue {
+						continue
+					}
 					var e *ssaEvent
 					if e, err = newSSAEventFromString(header, content, format); err != nil {
 						err = fmt.Errorf("astisub: building new ssa event failed: %w", err)
